@@ -443,6 +443,15 @@ class SplitVal(SVal):
             raise Unsupported("comparison of two split lists")
         if not isinstance(other, (list, tuple)) or not all(isinstance(x, str) for x in other):
             raise Unsupported("comparison of a split list with a symbolic list")
+        if self.popped and not self.extra and 1 <= len(other) <= 2:
+            # parts[:-1] == L: there is exactly one part more than in L, and the parts before the last are L
+            sepv = z3.simplify(self.sep)
+            if not z3.is_string_value(sepv) or any(sepv.as_string() in x for x in other):
+                return z3.BoolVal(False)
+            n_parts = z3.If(self.i1 < 0, 1, z3.If(self.i2 < 0, 2, z3.If(self.i3 < 0, 3, 4)))
+            p = self._orig_last(cx)
+            head = z3.SubString(self.s, 0, z3.Length(self.s) - z3.Length(p))
+            return z3.And(n_parts == len(other) + 1, head == z3.StringVal(sepv.as_string().join(other) + sepv.as_string()))
         self._plain("comparison")
         if self.last_new is not None:
             raise Unsupported("comparison of a split list after item assignment")
@@ -474,6 +483,16 @@ class SplitVal(SVal):
         return SInt(z3.If(self.i1 < 0, 1, z3.If(self.i2 < 0, 2, z3.If(self.i3 < 0, 3, more))))
 
     def py_getitem(self, cx, idx):
+        if isinstance(idx, SliceVal):
+            if idx.lo is None and idx.hi == -1 and idx.step is None:  # segs[:-1]: all parts but the last
+                self._plain("slicing")
+                if self.last_new is not None:
+                    raise Unsupported("slicing of a split list after item assignment")
+                c = SplitVal(self.s, self.sep)
+                c._last = self._orig_last(cx)
+                c.popped = True
+                return c
+            raise Unsupported("another slice of a split list than [:-1]")
         self._plain("subscription")
         s, sep, L = self.s, self.sep, self.L
         n = z3.Length(s)
